@@ -82,6 +82,8 @@ M = {
 		return fmt.Errorf(tag, uint64(b.Header.Number), have, h)
 	}
 	return nil'''),
+ # seeds/C08-i: the prune pass skips a segment whose download is in flight
+ "prune-trylock-skips-inflight": ("jrpc2/client.go", "	for k, v := range c.segments {\n		v.Lock()\n		if v.nreads >= c.maxreads {", "	for k, v := range c.segments {\n		if !v.TryLock() {\n			continue\n		}\n		if v.nreads >= c.maxreads {"),
  "prune-maxread-gt": ("jrpc2/client.go", "if v.nreads >= c.maxreads {", "if v.nreads > c.maxreads {"),
  "head-maxread-gt": ("jrpc2/client.go", "if nh.nreads >= nh.maxreads {", "if nh.nreads > nh.maxreads {"),
  "prune-lowest": ("jrpc2/client.go", "return keys[i].a > keys[j].a", "return keys[i].a < keys[j].a"),
